@@ -76,6 +76,23 @@ EnvQuick == (PlainStart /\ PlainDraft(draft)) \/ EnvPrefix(draft, B0Env, ViasEnv
 EnvDeep  == (PlainStart /\ PlainDraft(draft))
             \/ (PlainDraft(draft) /\ EnvPrefix(draft, B0All, ViasEnv))
             \/ EnvPrefix(draft, B0Key, ViasPair)
+\* --- the sender's source port class
+SrcPortsAll == SrcPortNames
+SrcPortsEph == {"eph"}
+SrcPortsTwo == {"eph", "p123"}
+\* senders on ports other than ephemeral ones go with: all 256 first bytes (LI x
+\* version x mode) x {IP, SCION with the empty path and IPv4 hosts} x
+\*   TLC (PortExh):     every shape (listener started with an interface name: the
+\*                      generators' four), every store / ancillary-data class the
+\*                      other constraints admit
+\*   generators (PortGen): 47 / 48 bytes, a valid and an unauthentic NTS request,
+\*                      plain circumstances
+PortExh(x) == x.sp = "eph" \/ (/\ <<x.tp, x.pk, x.fam>> \in ViasEnv
+                              /\ (PlainStart \/ <<x.len, x.tr>> \in ShapesEnv))
+PortGen(x) == x.sp = "eph" \/ (/\ <<x.tp, x.pk, x.fam>> \in ViasEnv /\ <<x.len, x.tr>> \in ShapesEnv
+                              /\ PlainStart /\ PlainDraft(x))
+PortsExh == draft.stage = "addr" => PortExh(draft)
+PortsGen == draft.stage = "addr" => PortGen(draft)
 GenQuick == (draft.stage \in {"via", "addr"} => Narrow(draft)) /\ EnvQuick
 GenDeep  == (draft.stage \in {"via", "addr"} => Wide(draft)) /\ EnvQuick
 GenDeepAll == (draft.stage \in {"via", "addr"} => Wide(draft)) /\ EnvDeep
@@ -90,13 +107,15 @@ Case(x) ==
       cf == conf[x.to]
   IN [tp |-> x.tp, b0 |-> x.b0, len |-> x.len, tr |-> x.tr, pk |-> x.pk, fam |-> x.fam, from |-> x.from, to |-> x.to,
       t |-> Trailer(x.tr), nat |-> NatLen(x.tr), path |-> PathOf(x.pk), sc |-> d.sc,
+      \* the sender's source port class and the endpoint it sends from
+      sp |-> x.sp, src |-> d.src,
       \* circumstances: listener configuration, store class (and what it means), ancillary data
       conf |-> cf, store |-> x.sc, cls |-> ClassOf(x.sc), il |-> d.il, anc |-> AncAt(cf, x.anc),
       org |-> ReplyOrigin(st, d),
       exp |-> Len(RepliesB(x.to, d, BufCap(x.tp), AncAt(cf, x.anc))),
       drop |-> DropStageB(x.to, d, BufCap(x.tp), AncAt(cf, x.anc))]
 \* (TLC evaluates invariants also on states that fail a CONSTRAINT: the guard repeats it)
-Emit     == (draft.stage = "addr" /\ EnvQuick) => PrintT(<<"CASE", ToJson(Case(draft))>>)
-EmitDeep == (draft.stage = "addr" /\ EnvDeep) => PrintT(<<"CASE", ToJson(Case(draft))>>)
+Emit     == (draft.stage = "addr" /\ EnvQuick /\ PortGen(draft)) => PrintT(<<"CASE", ToJson(Case(draft))>>)
+EmitDeep == (draft.stage = "addr" /\ EnvDeep /\ PortGen(draft)) => PrintT(<<"CASE", ToJson(Case(draft))>>)
 EmitPair == (draft.stage = "addr" /\ draft.from # Client) => PrintT(<<"CASE", ToJson(Case(draft))>>)
 =============================================================================
